@@ -157,6 +157,17 @@ def run(ctx):
                 for c in cfg['targets']:
                     r = rng.random()
                     sp.append(c if r < 0.34 else "<%s>" % c if r < 0.67 else ("ex:" + c[len(EX):] if c.startswith(EX) else c))
+                if rng.random() < 0.3:
+                    # class IRIs of the scheme urn: while the caller also declares a prefix named 'urn': a <bracketed> class is a full IRI and
+                    # must not be read as the prefixed name urn: + C0 (the unbracketed spelling would be ambiguous, so it is not used here)
+                    ren = lambda t: ('I', 'urn:' + t[1][len(EX):]) if t[0] == 'I' and t[1].startswith(EX + 'C') else t
+                    g = [(s_, p_, ren(o_)) for s_, p_, o_ in g]
+                    cfg['targets'] = ['urn:' + c[len(EX):] if c.startswith(EX + 'C') else c for c in cfg['targets']]
+                    nsd['http://example.org/urnns/'] = 'urn'
+                    sp = ["<%s>" % c for c in cfg['targets']]
+                elif rng.random() < 0.25:
+                    # a declared prefix called 'http' (legal): full IRIs - instantiation property, target classes in any spelling - stay full IRIs
+                    nsd['http://example.org/scheme/'] = 'http'
                 cfg['targets_spelled'] = sp
             cls_cases.append((g, cfg))
         stats["class_target_cases"] = len(cls_cases)
